@@ -46,7 +46,10 @@ out.append("it is what motivated the golden failing-sets (§3.6) and is now caug
 out.append("")
 out.append("**False-alarm test.** 15 behaviour-preserving refactorings (`seeded/benign/R*-*`, written by five sub-agents asked for")
 out.append("observably equivalent rewrites of orswot.rs/vclock.rs, map.rs, mvreg.rs + counters, list/glist/identifier/dot, merkle_reg/ctx/serde)")
-out.append("were swept the same way: 15 x 20 quick checks, **no VIOLATION and no machinery error** (`seeded/logs/sweep_quick_benign_*.log`).")
+out.append("were swept the same way: 15 x 20 quick checks, **no VIOLATION and no machinery error** (`seeded/logs/sweep_quick_benign_*.log`);")
+out.append("three of them (R1-1 `Orswot::merge`/`reset_remove` with `retain`, R2-2 `Map::merge` with the entry API, R3-2 `MVReg::merge` as one loop)")
+out.append("were also run through all 20 *thorough* checks, where the golden failing-sets hold a million histories: no alarm either")
+out.append("(`seeded/logs/sweep_thorough_benign_3_*.log`).")
 block = "<!-- SEEDTABLE-BEGIN -->\n" + "\n".join(out) + "\n<!-- SEEDTABLE-END -->"
 p = '/verif/DESIGN.md'; s = open(p).read()
 if 'SEEDTABLE-BEGIN' in s:
